@@ -1110,35 +1110,44 @@ gj0ProgEnvArg(Foam foam)
 local JavaCodeList
 gj0ProgDeclarations(Foam ddecl, Foam body)
 {
-	Table tbl = tblNew((TblHashFun) jcoHash, (TblEqFun) jcoEqual);
-	TableIterator it;
+	/* Groups of variables by type, in order of first appearance
+	 * (not in the address order of a hash table). */
+	int		ntypes = 0, ndecls = foamDDeclArgc(ddecl), k;
+	JavaCode	*typev;
+	JavaCodeList	*varsv;
 	JavaCodeList decls;
 	IntSet initted;
 	int i=0;
 	initted = intSetNew(foamDDeclArgc(ddecl));
-	
+	typev = (JavaCode *) stoAlloc(OB_Other, (ndecls+1) * sizeof(JavaCode));
+	varsv = (JavaCodeList *) stoAlloc(OB_Other, (ndecls+1) * sizeof(JavaCodeList));
 
 	gj0ProgInitVars(initted, body);
 	gjDEBUG(dbOut, "InitVars: %s\n", intSetToString(initted));
 
 	foamIter(ddecl, pdecl, {
 			JavaCode type = gj0Type(*pdecl);
-			JavaCodeList l = (JavaCodeList) tblElt(tbl, type, 
-							       listNil(JavaCode));
-			l = listCons(JavaCode)(gj0ProgDecl(ddecl, i, 
+			for (k = 0; k < ntypes; k++)
+				if (jcoEqual(typev[k], type)) break;
+			if (k == ntypes) {
+				typev[ntypes] = type;
+				varsv[ntypes] = listNil(JavaCode);
+				ntypes++;
+			}
+			varsv[k] = listCons(JavaCode)(gj0ProgDecl(ddecl, i,
 							   intSetMember(initted, i)),
-					       l);
-			tblSetElt(tbl, type, l);
+						      varsv[k]);
 			i++;
 		});
 	
 	decls = listNil(JavaCode);
-	for (tblITER(it, tbl); tblMORE(it); tblSTEP(it)) {
-		JavaCode type = tblKEY(it);
-		JavaCodeList vars = listNReverse(JavaCode)(tblELT(it));
-		JavaCode decl = jcLocalDecl(0, type, jcCommaSeq(vars));
+	for (k = 0; k < ntypes; k++) {
+		JavaCodeList vars = listNReverse(JavaCode)(varsv[k]);
+		JavaCode decl = jcLocalDecl(0, typev[k], jcCommaSeq(vars));
 		decls = listCons(JavaCode)(jcStatement(decl), decls);
 	}
+	stoFree((Pointer) typev);
+	stoFree((Pointer) varsv);
 
 	return decls;
 }
